@@ -120,6 +120,7 @@ typedef struct CO_CSDO_TRANSFER_T {
     CO_CSDO_CALLBACK_T     Call;        /*!< Notification callback           */
     uint32_t               Buf_Idx;     /*!< Buffer Index                    */
     uint8_t                TBit;        /*!< Segment toggle bit              */
+    uint8_t                Open;        /*!< Segmented transfer is initiated */
 } CO_CSDO_TRANSFER;
 
 /*! \brief SDO CLIENT
